@@ -1,8 +1,342 @@
-import Compio.Model.ChildIo
+/-
+C20 — child processes: complete stdio and the real exit status.
+
+All theorems are about `Compio.ChildIo.step` / `run` / `runCanon` / `denS`, the functions the driver
+`c20d` executes. A *schedule* is any `List Ev` accepted by `run`; a schedule is *maximal* (what a fair
+scheduler produces) when it ends in a state where no step is possible (`Stuck`). `mu` bounds the length
+of every schedule, so there are no infinite ones: "every fair schedule terminates with X" is
+"every maximal schedule ends in a state with X".
+
+`s0 = init script payload stdinNull`, `w0 = s0.wleft` (the payload the writer holds, `[]` for `Stdio::null()`).
+-/
+import Compio.Lemmas.ChildIo
+import Compio.Model.SharedFd
 
 namespace Compio.ChildIo
 
-theorem init_not_completed (sc : List CAct) (p : Bytes) (b : Bool) : (init sc p b).completed = false := by
-  simp [init, St.completed, WaitPc.isDone]
+/-! ## termination -/
+
+/-- Every schedule is finite: its length is bounded by the measure of the initial state
+(4 per payload byte, 2 per byte the child emits, one per statement and control step). -/
+theorem schedule_bounded {c : Cfg} {script : List CAct} {payload : Bytes} {b : Bool} {es : List Ev} {s : St}
+    (h : run c (init script payload b) es = some s) : es.length ≤ mu (init script payload b) := by
+  have := run_mu h; omega
+
+/-- Every schedule can be extended to a maximal one (the canonical scheduler does it). -/
+theorem schedule_extends {c : Cfg} {script : List CAct} {payload : Bytes} {b : Bool} {es : List Ev} {s : St}
+    (h : run c (init script payload b) es = some s) :
+    ∃ es' s', run c (init script payload b) (es ++ es') = some s' ∧ Stuck c s' := by
+  have hi := inv_run (inv_init c script payload b) h
+  obtain ⟨es', h'⟩ := runCanon_run c (mu s) s
+  exact ⟨es', _, by rw [run_append h]; exact h', runCanon_stuck hi (Nat.le_refl _)⟩
+
+/-! ## both directions at once -/
+
+/-- MAIN. Reader(s) and writer run concurrently (no activity of W, Ro, Re waits for another one; `wait`
+may come at any point, e.g. plans `conc`, `drainWait`), operations do not occupy the runtime thread
+(io_uring), any pipe capacities ≥ 1, any chunk sizes ≥ 1, any payload, any child program:
+every maximal schedule ends with all four activities done, the parent has read exactly what the child
+wrote on stdout and on stderr (in order), and these bytes, the bytes the child consumed and the exit
+status are the schedule-independent denotation of the child program on the payload. -/
+theorem concurrent_complete {c : Cfg} {script : List CAct} {payload : Bytes} {b : Bool} {es : List Ev} {s : St}
+    (hp : c.Pos) (hw : wfScript script = true) (hnb : c.blocking = false)
+    (hW : ∀ x, c.plan.deps .W x = false) (hRo : ∀ x, c.plan.deps .Ro x = false)
+    (hRe : ∀ x, c.plan.deps .Re x = false)
+    (hr : run c (init script payload b) es = some s) (hs : Stuck c s) :
+    s.completed = true ∧ s.rout = s.cout ∧ s.rerr = s.cerr ∧
+    s.rout = (denS script (init script payload b).wleft).out ∧
+    s.rerr = (denS script (init script payload b).wleft).err ∧
+    s.got = (denS script (init script payload b).wleft).got ∧
+    s.sunk = (denS script (init script payload b).wleft).sunk ∧
+    s.wt = .done (denS script (init script payload b).wleft).st := by
+  have hi := inv_run (inv_init c script payload b) hr
+  have hwf := wf_run (s := init script payload b) (by simpa [init] using hw) hr
+  have hc := stuck_completed_free hp hi hwf hnb hW hRo hRe hs
+  obtain ⟨h1, h2, h3, h4, h5, -, h7, h8⟩ := completed_den hr hc
+  exact ⟨hc, h7, h8, h1, h2, h3, h4, h5⟩
+
+/-- What the child read is, in order, what the parent wrote: at every moment
+`child-read ++ in-the-pipe = accepted-by-the-pipe` and `accepted ++ not-yet-written = payload`. -/
+theorem child_reads_what_parent_wrote {c : Cfg} {script : List CAct} {payload : Bytes} {b : Bool} {es : List Ev}
+    {s : St} (hr : run c (init script payload b) es = some s) :
+    s.got ++ s.pin = s.wsent ∧ s.wsent ++ s.wleft = (init script payload b).wleft :=
+  got_prefix (inv_run (inv_init c script payload b) hr)
+
+/-- …and at every moment `parent-read ++ in-the-pipe = child-written`, for stdout and stderr. -/
+theorem parent_reads_what_child_wrote {c : Cfg} {script : List CAct} {payload : Bytes} {b : Bool} {es : List Ev}
+    {s : St} (hr : run c (init script payload b) es = some s) :
+    s.rout ++ s.pout = s.cout ∧ s.rerr ++ s.perr = s.cerr :=
+  ⟨(inv_run (inv_init c script payload b) hr).outs, (inv_run (inv_init c script payload b) hr).errs⟩
+
+/-- A child that consumes its whole input (`cat`, `wc`, …) has received exactly the payload when the run is
+finished, and the writer loop ended with `Ok`. -/
+theorem child_read_all {c : Cfg} {script : List CAct} {payload : Bytes} {b : Bool} {es : List Ev} {s : St}
+    (hr : run c (init script payload b) es = some s) (hc : s.completed = true)
+    (hall : (denS script (init script payload b).wleft).got = (init script payload b).wleft) :
+    s.got = (init script payload b).wleft ∧ s.wepipe = false := by
+  have hi := inv_run (inv_init c script payload b) hr
+  obtain ⟨-, -, h3, -⟩ := completed_den hr hc
+  refine ⟨by rw [h3, hall], ?_⟩
+  cases he : s.wepipe with
+  | false => rfl
+  | true =>
+    have := epipe_short hi he
+    rw [h3, hall] at this
+    omega
+
+/-- The writer loop ends with `BrokenPipe` only if the child stopped reading before the end of the payload;
+it ends with `Ok` only if all but at most one pipe capacity of the payload was read by the child.
+(Between the two bounds the result depends on the schedule: the driver prints `racy`.) -/
+theorem writer_result {c : Cfg} {script : List CAct} {payload : Bytes} {b : Bool} {es : List Ev} {s : St}
+    (hr : run c (init script payload b) es = some s) :
+    (s.wepipe = true → s.got.length < (init script payload b).wleft.length) ∧
+    (s.wleft = [] → (init script payload b).wleft.length ≤ s.got.length + c.capIn) :=
+  ⟨epipe_short (inv_run (inv_init c script payload b) hr), ok_long (inv_run (inv_init c script payload b) hr)⟩
+
+/-- All finished runs of one scenario agree on everything observable, whatever the schedule, the chunk
+sizes and the pipe capacities were. -/
+theorem schedule_independent {c c' : Cfg} {script : List CAct} {payload : Bytes} {b : Bool} {es es' : List Ev}
+    {s s' : St} (hr : run c (init script payload b) es = some s) (hc : s.completed = true)
+    (hr' : run c' (init script payload b) es' = some s') (hc' : s'.completed = true) :
+    s.rout = s'.rout ∧ s.rerr = s'.rerr ∧ s.got = s'.got ∧ s.sunk = s'.sunk ∧ s.wt = s'.wt := by
+  obtain ⟨h1, h2, h3, h4, h5, -⟩ := completed_den hr hc
+  obtain ⟨k1, k2, k3, k4, k5, -⟩ := completed_den hr' hc'
+  exact ⟨by rw [h1, k1], by rw [h2, k2], by rw [h3, k3], by rw [h4, k4], by rw [h5, k5]⟩
+
+/-! ## orders in which one direction waits for the other -/
+
+/-- If everything the child will ever write fits into the pipes, it never blocks in a write: then the
+readers may wait for whatever they like (`wait` first and drain afterwards — plan `waitDrain` —, or
+write everything first — plan `seq`), and a `write` may occupy the runtime thread (polling driver).
+Only the writer must be free to run. In particular: reading after the child has exited still returns
+all buffered bytes. -/
+theorem fits_complete {c : Cfg} {script : List CAct} {payload : Bytes} {b : Bool} {es : List Ev} {s : St}
+    (hp : c.Pos) (hw : wfScript script = true) (hW : ∀ x, c.plan.deps .W x = false)
+    (ho : (denS script (init script payload b).wleft).out.length ≤ c.capOut)
+    (he : (denS script (init script payload b).wleft).err.length ≤ c.capErr)
+    (hr : run c (init script payload b) es = some s) (hs : Stuck c s) :
+    s.completed = true ∧
+    s.rout = (denS script (init script payload b).wleft).out ∧
+    s.rerr = (denS script (init script payload b).wleft).err ∧
+    s.wt = .done (denS script (init script payload b).wleft).st := by
+  have hi := inv_run (inv_init c script payload b) hr
+  have hwf := wf_run (s := init script payload b) (by simpa [init] using hw) hr
+  have hd := den_run (inv_init c script payload b) hr
+  rw [den_init] at hd
+  have hc := stuck_completed_fits hp hi hwf hW (by rw [hd]; exact ho) (by rw [hd]; exact he) hs
+  obtain ⟨h1, h2, -, -, h5, -⟩ := completed_den hr hc
+  exact ⟨hc, h1, h2, h5⟩
+
+/-- A reader sees end of file only when the child is gone and every byte it wrote has been read:
+nothing that is buffered in the pipe at exit is lost. -/
+theorem eof_after_all_bytes {c : Cfg} {script : List CAct} {payload : Bytes} {b : Bool} {es : List Ev} {s : St}
+    (hr : run c (init script payload b) es = some s) :
+    (s.routDone = true → s.status.isSome = true ∧ s.rout = s.cout) ∧
+    (s.rerrDone = true → s.status.isSome = true ∧ s.rerr = s.cerr) := by
+  have hi := inv_run (inv_init c script payload b) hr
+  constructor
+  · intro h
+    obtain ⟨h1, h2⟩ := hi.routDone h
+    have := hi.outs
+    rw [h2, List.append_nil] at this
+    exact ⟨h1, this⟩
+  · intro h
+    obtain ⟨h1, h2⟩ := hi.rerrDone h
+    have := hi.errs
+    rw [h2, List.append_nil] at this
+    exact ⟨h1, this⟩
+
+/-- A payload that fits into the stdin pipe never makes a `write` wait: with free readers every maximal
+schedule finishes on either driver. -/
+theorem small_payload_complete {c : Cfg} {script : List CAct} {payload : Bytes} {b : Bool} {es : List Ev} {s : St}
+    (hp : c.Pos) (hw : wfScript script = true) (hpl : (init script payload b).wleft.length ≤ c.capIn)
+    (hW : ∀ x, c.plan.deps .W x = false) (hRo : ∀ x, c.plan.deps .Ro x = false)
+    (hRe : ∀ x, c.plan.deps .Re x = false)
+    (hr : run c (init script payload b) es = some s) (hs : Stuck c s) : s.completed = true := by
+  have hi := inv_run (inv_init c script payload b) hr
+  have hwf := wf_run (s := init script payload b) (by simpa [init] using hw) hr
+  exact stuck_completed_small hp hi hwf hpl hW hRo hRe hs
+
+/-- The loop configuration: an echoing child (`copy none blk out`, then statements without io), the parent
+writes everything — or, on the polling driver, sits in a `write` — before it reads.
+(i) If the payload fits into the two pipes (`≤ capIn + capOut`) every maximal schedule finishes. -/
+theorem echo_fits_complete {c : Cfg} {blk : Nat} {tail : List CAct} {payload : Bytes} {es : List Ev} {s : St}
+    (hp : c.Pos) (hblk : 0 < blk) (hq : quiet tail = true) (hwt : wfScript tail = true)
+    (hpl : payload.length ≤ c.capIn + c.capOut)
+    (hW : ∀ x, c.plan.deps .W x = false) (hRo : ∀ x, c.plan.deps .Ro x = true → x = .W)
+    (hr : run c (init (.copy none blk .out :: tail) payload false) es = some s) (hs : Stuck c s) :
+    s.completed = true ∧ s.rout = payload ++ (denS tail []).out := by
+  have hi := inv_run (inv_init c _ payload false) hr
+  have hc := catInv_run (catInv_init blk tail hq payload false) hr
+  have hwf := wf_run (s := init (.copy none blk .out :: tail) payload false)
+    (by simp [init, wfScript, hblk, hwt]) hr
+  have hdone := stuck_completed_cat hp hi hc hwf (by simpa [init] using hpl) hW hRo hs
+  obtain ⟨h1, -⟩ := completed_den hr hdone
+  refine ⟨hdone, ?_⟩
+  rw [h1]
+  simp [init, denS, limTake, limDrop, Den.read, Den.emit]
+
+/-- (ii) If the payload exceeds both pipes and the child's buffer (`> capIn + blk + capOut`) and the
+reader waits for the writer (plan `seq`), NO schedule finishes: every maximal schedule is a deadlock
+(parent blocked writing, child blocked writing). This is the order of operations, not a compio defect:
+both directions must be active at once. (Between the two bounds it depends on how much the child happens
+to hold in its buffer — see the two example schedules below.) -/
+theorem seq_deadlock {c : Cfg} {blk : Nat} {tail : List CAct} {payload : Bytes} {es : List Ev} {s : St}
+    (hq : quiet tail = true) (hbig : c.capIn + blk + c.capOut < payload.length)
+    (hseq : c.plan.deps .Ro .W = true)
+    (hr : run c (init (.copy none blk .out :: tail) payload false) es = some s) :
+    s.completed = false ∧ s.wclosed = false ∧ s.rout = [] ∧ s.status = none := by
+  have hk : WriterStuck blk (init (.copy none blk .out :: tail) payload false) :=
+    ⟨rfl, rfl, rfl, tail, rfl⟩
+  have := seq_never_run (inv_init c _ payload false) (catInv_init blk tail hq payload false) hk
+    (by simpa [init] using hbig) hseq hr
+  exact ⟨writerStuck_not_completed this, this.open_, this.noRead, this.alive⟩
+
+/-! ## wait -/
+
+/-- `wait` returns the child's real status: whenever the wait is done with `st`, the child has exited
+with `st` — and in a finished run that is the status the program denotes. -/
+theorem wait_real_status {c : Cfg} {script : List CAct} {payload : Bytes} {b : Bool} {es : List Ev} {s : St}
+    {st : Status} (hr : run c (init script payload b) es = some s) (hw : s.wt = .done st) :
+    s.status = some st :=
+  (inv_run (inv_init c script payload b) hr).wtDone st hw
+
+/-- `wait` never returns before the child has exited: the completing step is only possible in a state in
+which the child has an exit status, and it returns that status. -/
+theorem wait_not_before_exit {c : Cfg} {s s' : St} (h : step c s .wtDone = some s') :
+    ∃ st, s.status = some st ∧ s'.wt = .done st := by
+  obtain ⟨-, -, -, st, h1, rfl⟩ := stepWtDone_some h
+  exact ⟨st, h1, rfl⟩
+
+/-- …so along any schedule no wait (on either route) is past its readiness point while the child runs. -/
+theorem waiting_while_alive {c : Cfg} {script : List CAct} {payload : Bytes} {b : Bool} {es : List Ev} {s : St}
+    (hr : run c (init script payload b) es = some s) (ha : s.status = none) :
+    s.wt = .idle ∨ s.wt = .started := by
+  have hi := inv_run (inv_init c script payload b) hr
+  cases hw : s.wt with
+  | idle => exact Or.inl rfl
+  | started => exact Or.inr rfl
+  | ready => have := hi.wtExited (Or.inl hw); simp [ha] at this
+  | taken => have := hi.wtExited (Or.inr hw); simp [ha] at this
+  | done st => have := hi.wtDone st hw; simp [ha] at this
+
+/-- `wait` yields the status exactly once: a schedule contains at most one completed wait, and exactly
+one iff the wait is done at its end (the `Child` is moved into the wait: there is no second call). -/
+theorem wait_at_most_once {c : Cfg} {script : List CAct} {payload : Bytes} {b : Bool} {es : List Ev} {s : St}
+    (hr : run c (init script payload b) es = some s) :
+    waits es ≤ 1 ∧ (waits es = 1 ↔ s.wt.isDone = true) := by
+  have h := waits_run hr
+  have h0 : (init script payload b).wt.isDone = false := rfl
+  rw [h0] at h
+  cases hd : s.wt.isDone <;> rw [hd] at h <;> simp [b2n] at h ⊢ <;> omega
+
+/-- Route B (pidfd): when the `PollOnce` completion has been popped the operation's clone of the
+`SharedFd` is gone, the count is 1, and `take()` succeeds at its first poll. -/
+theorem pidfd_take_succeeds {c : Cfg} {script : List CAct} {payload : Bytes} {b : Bool} {es : List Ev} {s : St}
+    (hr : run c (init script payload b) es = some s) (hw : s.wt = .ready)
+    (hd : depsOk c s .Wt = true) (hb : s.wblock = 0) :
+    s.fdRefs = 1 ∧ c.pidfd = true ∧ (step c s .wtTake).isSome = true := by
+  have hi := inv_run (inv_init c script payload b) hr
+  have h1 : s.fdRefs = 1 := by have := hi.refs; rw [hw] at this; exact this
+  have h2 := hi.wtPidfd (Or.inl hw)
+  exact ⟨h1, h2, by simp [step, stepWtTake, hd, hb, h2, hw, h1]⟩
+
+/-- The same four steps on C06's model of `SharedFd` (`compio-driver/src/fd.rs`): create, clone into the
+operation, drop the operation, `take()`, one poll: the closer gets the descriptor (`doneSome`), nothing
+is left registered. -/
+theorem sharedFd_take_completes :
+    (Compio.SharedFd.run (Compio.SharedFd.init false) [.opStart 0, .drop 1, .take 0, .poll 0]).map
+      (fun s => (s.actors, s.count, s.delivered, s.slot)) =
+    some ([.closer .doneSome, .gone], 0, 1, none) := by
+  decide
+
+/-- …whereas a `take()` polled while the operation still holds its clone parks (this is the state the
+model's `wtTake` excludes by `fdRefs = 1`). -/
+theorem sharedFd_take_parks_while_op_alive :
+    (Compio.SharedFd.run (Compio.SharedFd.init false) [.opStart 0, .take 0, .poll 0]).map
+      (fun s => (s.actors, s.count, s.delivered)) =
+    some ([.closer .parked, .op .live], 2, 0) := by
+  decide
+
+/-! ## the canonical scheduler used by the driver -/
+
+/-- The driver's run is a schedule, it is maximal, and more fuel does not change it. -/
+theorem canon_is_maximal_schedule (c : Cfg) (script : List CAct) (payload : Bytes) (b : Bool) :
+    (∃ es, run c (init script payload b) es =
+      some (runCanon c (mu (init script payload b)) (init script payload b))) ∧
+    Stuck c (runCanon c (mu (init script payload b)) (init script payload b)) ∧
+    ∀ k, runCanon c (mu (init script payload b) + k) (init script payload b) =
+      runCanon c (mu (init script payload b)) (init script payload b) :=
+  ⟨runCanon_run _ _ _, runCanon_stuck (inv_init c script payload b) (Nat.le_refl _),
+   fun k => runCanon_fuel (inv_init c script payload b) (Nat.le_refl _) k⟩
+
+/-- Hence, when the driver's run finishes, what it prints is what EVERY finished schedule produces. -/
+theorem canon_predicts_all {c c' : Cfg} {script : List CAct} {payload : Bytes} {b : Bool} {es : List Ev} {s : St}
+    (hcan : (runCanon c' (mu (init script payload b)) (init script payload b)).completed = true)
+    (hr : run c (init script payload b) es = some s) (hc : s.completed = true) :
+    s.rout = (runCanon c' (mu (init script payload b)) (init script payload b)).rout ∧
+    s.rerr = (runCanon c' (mu (init script payload b)) (init script payload b)).rerr ∧
+    s.got = (runCanon c' (mu (init script payload b)) (init script payload b)).got ∧
+    s.sunk = (runCanon c' (mu (init script payload b)) (init script payload b)).sunk ∧
+    s.wt = (runCanon c' (mu (init script payload b)) (init script payload b)).wt := by
+  obtain ⟨es', h'⟩ := runCanon_run c' (mu (init script payload b)) (init script payload b)
+  exact schedule_independent hr hc h' hcan
+
+/-! ## non-vacuity -/
+
+/-- `exCfg` (Lemmas): 2-byte pipes, io_uring, plan `conc` satisfies the hypotheses of `concurrent_complete` -/
+
+example : exCfg.Pos := ⟨by decide, by decide, by decide, by decide, by decide⟩
+example : ∀ x, exCfg.plan.deps .W x = false := by intro x; cases x <;> rfl
+example : ∀ x, exCfg.plan.deps .Ro x = false := by intro x; cases x <;> rfl
+
+/-- `head -c 3; printf A >&2; exit 7` fed 7 bytes (more than all pipes together): the canonical schedule
+finishes with 3 bytes echoed, `A` on stderr, status 7, and the writer got `BrokenPipe`. -/
+example :
+    let s := runCanon exCfg 100 (init [.copy (some 3) 2 .out, .emit .err [65], .exit 7] [1, 2, 3, 4, 5, 6, 7] false)
+    s.completed = true ∧ s.rout = [1, 2, 3] ∧ s.rerr = [65] ∧ s.wt = .done (.exited 7) ∧ s.wepipe = true ∧
+      s.got = [1, 2, 3] := by
+  decide
+
+/-- `cat` fed 7 bytes through 2-byte pipes, the child killed by SIGTERM afterwards -/
+example :
+    let s := runCanon exCfg 100 (init [.copy none 4 .out, .kill 15] [1, 2, 3, 4, 5, 6, 7] false)
+    s.completed = true ∧ s.rout = [1, 2, 3, 4, 5, 6, 7] ∧ s.wt = .done (.signaled 15) ∧ s.wepipe = false := by
+  decide
+
+/-- the denotation of that program, computed without any schedule -/
+example : denS [.copy none 4 .out, .kill 15] [1, 2, 3, 4, 5, 6, 7] =
+    ⟨[1, 2, 3, 4, 5, 6, 7], [], [1, 2, 3, 4, 5, 6, 7], 0, .signaled 15⟩ := by
+  decide
+
+/-- the loop configuration between the two bounds (capIn = 2, capOut = 1, blk = 2, 5 bytes, plan `seq`):
+this schedule (the child takes two bytes into its buffer) finishes … -/
+
+example :
+    (run seqCfg (init [.copy none 2 .out] [1, 2, 3, 4, 5] false)
+      [.wr 1, .cRead 1, .cWrite 1, .wr 2, .cRead 2, .wr 2, .wclose]).map
+      (fun s => (runCanon seqCfg 100 s).completed) = some true := by
+  decide
+
+/-- … and this one (the child takes one byte) deadlocks: no step is possible, nothing is finished. -/
+example :
+    (run seqCfg (init [.copy none 2 .out] [1, 2, 3, 4, 5] false)
+      [.wr 1, .cRead 1, .cWrite 1, .wr 1, .cRead 1, .wr 2]).all
+      (fun s => (next seqCfg s).isNone && !s.completed && s.wleft == [5] && s.pin == [3, 4] && s.pend == [2] &&
+        s.pout == [1]) = true ∧
+    (run seqCfg (init [.copy none 2 .out] [1, 2, 3, 4, 5] false)
+      [.wr 1, .cRead 1, .cWrite 1, .wr 1, .cRead 1, .wr 2]).isSome = true := by
+  decide
+
+/-- `seq_deadlock` is not vacuous: 6 bytes > 2 + 2 + 1 -/
+example : seqCfg.capIn + 2 + seqCfg.capOut < ([1, 2, 3, 4, 5, 6] : Bytes).length ∧ seqCfg.plan.deps .Ro .W = true := by
+  decide
+
+/-- wait-then-drain with outputs that fit (`fits_complete`): both pipes still hold their bytes after exit -/
+example :
+    let c : Cfg := { exCfg with plan := .waitDrain }
+    let s := runCanon c 100 (init [.emit .out [1, 2], .emit .err [3], .exit 1] [] true)
+    s.completed = true ∧ s.rout = [1, 2] ∧ s.rerr = [3] ∧ s.wt = .done (.exited 1) := by
+  decide
 
 end Compio.ChildIo
